@@ -179,7 +179,7 @@ MANIFEST = dict(
         "for equal costs both result forms are rescaled by the common cost exactly once. These are the structural clauses of "
         "C01 ('under the given costs', 'either layout', 'never depends on the other pairs'); equality of the vectorised "
         "recurrence with the Levenshtein minimum is decided by interpreting the whole kernel over exact values on a finite grid of "
-        "batches / costs / options (102 rows against a per-pair oracle), not for all lengths."),
+        "batches / costs / options (102 rows against a per-pair oracle), not for all lengths. The kernel table includes batches whose hypotheses have no step at all; gather is evaluated by the library's rule (no broadcasting of the table)."),
     level_note="Trusted: python ast; formal names / docstring tables as oracle for what each public name computes.",
     technique="static analysis: argument binding / forwarding completeness, literal mode-table agreement, batch-mixing reduction rule, write-last (def-use) rule for the padding value; interpretation of the whole kernel over exact tensor values (syntax tree only, library constants folded from their definitions) compared with a per-pair Levenshtein oracle on a finite grid",
     design_ref="DESIGN.md section 4 C01",
